@@ -28,9 +28,6 @@ pub proof fn lemma_le32_roundtrip(x: u32)
 }
 
 // --- rotation -------------------------------------------------------------------------------------
-// normalised cursor: where the rotation actually stands (a cursor beyond the count — after the count
-// shrank, or count + 1 after a full round — restarts at 1)
-pub open spec fn rr_norm(c: u32, n: u32) -> int { if c > n { 1 } else { c as int } }
 // j-th id of the rotation starting at normalised cursor c0 (for 0 <= j <= n)
 pub open spec fn rr_at(c0: int, n: int, j: int) -> int { if c0 + j <= n { c0 + j } else { c0 + j - n } }
 
